@@ -2,6 +2,7 @@
    Generated once by tools/mkpins.py from Props/C07b_ndisc.v and then committed: edit both or neither. *)
 From SV Require Import Lib.Base Gen.WireFields Model.WireBase Proofs.WireBaseProofs.
 From SV Require Import Model.WireIpv6 Model.WireNdiscOpt Proofs.WireNdiscOptProofs.
+From SV Require Import Model.WireIcmpv6Hdr Proofs.WireIcmpv6HdrProofs Model.WireNdisc Proofs.WireNdiscProofs.
 From SV Require Import Props.C07b_ndisc.
 
 Check (C07_ndopt_accessors_safe : forall bs,
@@ -15,3 +16,22 @@ Check (C07_ndopt_accessors_safe : forall bs,
 Check (C07_ndopt_check_len_total : forall bs, ndopt_check_len bs <> Panic).
 
 Check (C07_ndopt_parse_total : forall bs, bytes_ok bs = true -> ndopt_parse bs <> Panic).
+
+Check (C07_ndisc_accessors_safe : forall bs,
+  icmp6h_check_len bs = Ok tt ->
+  (icmp6h_msg_type bs = Ok icmp6h_ROUTER_ADVERT ->
+     ndisc_current_hop_limit bs <> Panic /\ ndisc_router_flags bs <> Panic /\ ndisc_router_lifetime bs <> Panic /\
+     ndisc_reachable_time bs <> Panic /\ ndisc_retrans_time bs <> Panic) /\
+  (icmp6h_msg_type bs = Ok icmp6h_NEIGHBOR_SOLICIT -> ndisc_target_addr bs <> Panic) /\
+  (icmp6h_msg_type bs = Ok icmp6h_NEIGHBOR_ADVERT ->
+     ndisc_neighbor_flags bs <> Panic /\ ndisc_target_addr bs <> Panic) /\
+  (icmp6h_msg_type bs = Ok icmp6h_REDIRECT -> ndisc_target_addr bs <> Panic /\ ndisc_dest_addr bs <> Panic)).
+
+Check (C07_ndisc_parse_total : forall bs, bytes_ok bs = true -> ndisc_parse bs <> Panic).
+
+Check (C07_ndisc_icmp_parse_total : forall (sum_ok : list Z -> bool) rx bs,
+  bytes_ok bs = true -> ndisc_icmp_parse sum_ok rx bs <> Panic).
+
+Check (C07_ndisc_parse_opts_fuel : forall fuel k p off st,
+  bytes_ok p = true -> 0 <= off -> (Z.to_nat (blen p - off) <= fuel)%nat ->
+  ndisc_parse_opts (fuel + k) p off st = ndisc_parse_opts fuel p off st).
